@@ -108,7 +108,7 @@ BUS_PROPS = {
     'C06': dict(oracle=lambda F, w: oracle.c06(F),
                 profiles=[('clean', 1), ('multi', 4), ('nested', 2), ('parallel', 2), ('stalls', 2), ('gap', 2), ('multi_fwd', 2), ('multi_stop', 4)]),
     'C07': dict(oracle=lambda F, w: oracle.c07(F),
-                profiles=[('topo', 5), ('topo_traffic', 4), ('topo_redispatch', 3), ('multi_fwd', 2)]),
+                profiles=[('topo', 5), ('topo_traffic', 4), ('topo_redispatch', 3), ('topo_small_history', 3), ('multi_fwd', 2)]),
     'C08': dict(oracle=lambda F, w: oracle.c08(F), watch=completion_watch,
                 profiles=[('topo', 4), ('topo_traffic', 2), ('multi_fwd', 3), ('nested', 2), ('redispatch', 2), ('clean', 1), ('errors', 1), ('timeouts', 3), ('timeouts_clean', 1)]),
     'C09': dict(oracle=lambda F, w: oracle.c09(F),
